@@ -311,6 +311,26 @@ def run(ctx):
                 break
     finally:
         pool.close()
+    # read-size hint on a real socket: a descriptor-carrying message arriving in two writes with another one queued
+    # behind it (scenario family shared with C15)
+    from . import c15
+    pscn = list(c15.pipelined_scenarios(ctx.tier))
+    pool = Pool()
+    npl = 0
+    try:
+        for r in pool.imap(c15.task_pipelined, [pscn[i:i + 3] for i in range(0, len(pscn), 3)]):
+            if '__crash__' in r:
+                ctx.add_violation(Violation('crash', r['__crash__'], r['stderr'], {'task': r['task']}))
+                continue
+            for v in r['viol']:
+                v = Violation.from_json(v)
+                v.clause = 'chunking-changes-result'
+                v.reason = 'fd-read-hint'
+                ctx.add_violation(v)
+            npl += r['n']
+    finally:
+        pool.close()
+    ctx.hit('pipelined-fd-scenarios', npl)
     ctx.hit('loader-partitions', loader_runs)
     ctx.hit('transport-partitions', transport_runs)
     ctx.hit('server-side-partitions', server_runs)
@@ -333,6 +353,15 @@ def replay(case):
     if 'stream' in case:
         r = task_stream((case['stream'], case['k']))
         return [Violation.from_json(v) for v in r['viol']]
+    if 'pipelined' in case:
+        from . import c15
+        r = c15.task_pipelined([case])
+        out = []
+        for v in r['viol']:
+            v = Violation.from_json(v)
+            v.clause, v.reason = 'chunking-changes-result', 'fd-read-hint'
+            out.append(v)
+        return out
     if 'server' in case:
         name, mode, cuts = case['server']
         r = task_server((name, mode, [tuple(cuts)]))
